@@ -83,6 +83,75 @@ structure InvA (s : State) : Prop where
   thr : ∀ t, t < s.nThr → TInvA s t (s.thr t)
   no_panic : s.panicked = false
 
+
+/-! ### layer B: entries own instances -/
+
+structure EInvB (s : State) (r : Ref) : Prop where
+  val_inst : ∀ i, (s.heap r).value = some i →
+    i < s.nInst ∧ (s.inst i).ent = r ∧ (s.inst i).id = (s.heap r).id ∧
+    ((s.heap r).st = .active → (s.inst i).st = .live) ∧
+    ((s.heap r).st = .closing → (s.inst i).st = .closing) ∧
+    ((s.heap r).st = .closed → (s.inst i).st = .closed)
+  pend_inst : ∀ i, (s.heap r).pending = some i →
+    i < s.nInst ∧ (s.inst i).ent = r ∧ (s.inst i).id = (s.heap r).id ∧
+    ((s.inst i).st = .loading ∨ (s.inst i).st = .live)
+  val_pend : (s.heap r).value = none ∨ (s.heap r).pending = none
+
+structure IInvB (s : State) (i : Inst) : Prop where
+  owned : (s.inst i).st.alive = true →
+    (s.inst i).ent < s.nHeap ∧ Entry.inMapOf s (s.inst i).ent ∧ (s.heap (s.inst i).ent).id = (s.inst i).id ∧
+    ((s.heap (s.inst i).ent).value = some i ∨ (s.heap (s.inst i).ent).pending = some i)
+  closes : (s.inst i).closes = if (s.inst i).st = .closed then 1 else 0
+  no_bad : (s.inst i).badClose = false
+
+structure InvB (s : State) : Prop where
+  ent : ∀ r, r < s.nHeap → EInvB s r
+  ins : ∀ i, i < s.nInst → IInvB s i
+  ret : ∀ t, t < s.nThr → ∀ i,
+    ((s.thr t).pc = .done (.val i) → i < s.nInst ∧ (s.inst i).st.loaded = true ∧ (s.inst i).id = (s.thr t).op.id) ∧
+    (∀ l, (s.thr t).pc = .done (.objs l) → i ∈ l → i < s.nInst ∧ (s.inst i).st.loaded = true)
+
+/-! ### layer C: staleness -/
+
+/-- the entry a lookup thread currently holds -/
+def Pc.holds : Pc → Option Ref
+  | .getWaitClose r _ | .waitCloseWait r _ | .loadBegin r | .inLoad r _ | .loadCommit r _ _ | .loadSignal r
+  | .getWaitLoad r | .pickWaitLoad r => some r
+  | _ => none
+
+structure InvC (s : State) : Prop where
+  stale_closed : ∀ t, t < s.nThr → ∀ i, i ∈ (s.thr t).stale → (s.inst i).st = .closed
+  held_fresh : ∀ t, t < s.nThr → ∀ r i, (s.thr t).pc.holds = some r → (s.heap r).value = some i →
+    i ∉ (s.thr t).stale
+  ret_fresh : ∀ t, t < s.nThr → ∀ i,
+    ((s.thr t).pc = .done (.val i) → i ∉ (s.thr t).stale) ∧
+    (∀ l, (s.thr t).pc = .done (.objs l) → i ∈ l → i ∉ (s.thr t).stale)
+
+/-! ### layer D: the thread that runs `Close()` -/
+
+def CloseProgress (s : State) (th : Thread) : Prop :=
+  th.op = .close ∧
+  match th.pc with
+  | .done (.errOnly none) => ∀ r, r < s.nHeap → ¬ Entry.inMapOf s r
+  | .rmWaitLoad r | .rmSetClosing r | .rmClosingWait r _ | .inClose r _ =>
+    ∀ r', r' < s.nHeap → Entry.inMapOf s r' → r' = r ∨ r' ∈ th.todo
+  | _ => False
+
+structure InvD (s : State) : Prop where
+  progress : s.closed = true → ∃ t, t < s.nThr ∧ CloseProgress s (s.thr t)
+  close_done : s.closeDone = true → s.closed = true ∧ ∀ r, r < s.nHeap → ¬ Entry.inMapOf s r
+
+/-- the whole invariant (evaluated clause by clause on every visited state by `Check.invFail`) -/
+structure Inv (s : State) : Prop where
+  a : InvA s
+  b : InvB s
+  c : InvC s
+  d : InvD s
+
+/-- the invariant is inductive: the hypothesis of the `_partial` theorems -/
+def Inductive (P : State → Prop) : Prop :=
+  P init ∧ ∀ s l s', P s → next s l = some s' → P s'
+
 /-! ### the property, as statements about a state -/
 
 /-- at most one live instance per id (an instance is live from the moment its load starts until its
